@@ -5,15 +5,22 @@
 #[path = "../c17_script_rng.rs"]
 mod script;
 
+use std::sync::{Arc, Mutex};
+
+use better_any::{Tid, TidAble};
+use derive_more::{Deref, DerefMut};
 use hcommon::problems::TagProblem;
 use hcommon::templates::{run_template, EvalKind, HProblem, Outcome, Visitor};
 use hcommon::*;
 use mahf::components::mapping::sa::GeometricCooling;
 use mahf::components::replacement::sa::{ExponentialAnnealingAcceptance, Temperature};
 use mahf::lens::ValueOf;
-use mahf::state::common::Populations;
+use mahf::components::{Block, Loop, Scope};
+use mahf::conditions::LessThanN;
+use mahf::state::common::{Iterations, Populations};
 use mahf::verif::Phase;
-use mahf::{Component, Individual, Random, SingleObjective, State};
+use mahf::{Component, CustomState, ExecResult, Individual, Random, SingleObjective, State};
+use serde::Serialize;
 use script::*;
 
 type P = TagProblem;
@@ -67,7 +74,7 @@ fn run_accept(args: &[Sx]) -> String {
     list([status.to_string(), stack, tagged("t", [fx(t_after)]), tagged("used", [scr.used().to_string()])])
 }
 
-/// `(freq (kind chacha|sm) (cur x) (cand x) (t x) (n N) (seed s))` → `((acc k) (used d))`
+/// `(freq (kind chacha|sm) (cur x) (cand x) (t x) (n N) (seed s) [(it v)])` → `((acc k) (bad b) (used d))`
 fn run_freq(args: &[Sx]) -> String {
     let kind = field(args, "kind")[0].atom().unwrap().to_string();
     let cur = field(args, "cur")[0].float().unwrap();
@@ -80,6 +87,10 @@ fn run_freq(args: &[Sx]) -> String {
     let (id, scr) = register(vec![], seed);
     if kind == "sm" { state.insert(Random::with_rng::<ScriptRng>(id)); } else { state.insert(Random::new(seed)); }
     state.insert(Temperature(t));
+    // optional `(it v)`: the state also holds an `Iterations` counter that stays at v during all n executions
+    for a in args {
+        if let Some(("it", rest)) = a.head() { state.insert(Iterations(rest[0].nat().unwrap() as u32)); }
+    }
     let c = ExponentialAnnealingAcceptance::new::<P>(1.0);
     let mut acc = 0u64;
     let mut bad = 0u64;
@@ -121,12 +132,230 @@ fn run_cool(args: &[Sx]) -> String {
     tagged("ok", ts)
 }
 
+
+// ------------------------------------------------------------------ cooling components inside programs
+/// Further `f64` states a `ValueOf<_>` lens can point at (cell 0 is the real `Temperature`).
+#[derive(Deref, DerefMut, Tid)]
+struct CellB(f64);
+impl CustomState<'_> for CellB {}
+#[derive(Deref, DerefMut, Tid)]
+struct CellC(f64);
+impl CustomState<'_> for CellC {}
+
+fn cell_value(state: &State<P>, cell: u64) -> Option<f64> {
+    match cell {
+        0 => state.try_get_value::<Temperature>().ok(),
+        1 => state.try_get_value::<CellB>().ok(),
+        2 => state.try_get_value::<CellC>().ok(),
+        _ => panic!("cell {cell}"),
+    }
+}
+fn opt_f(v: Option<f64>) -> String {
+    v.map(fx).unwrap_or("none".into())
+}
+
+/// (Re)inserts `Iterations(v)` into the innermost scope.
+#[derive(Clone, Serialize)]
+struct SetIter(u32);
+impl Component<P> for SetIter {
+    fn execute(&self, _: &P, state: &mut State<P>) -> ExecResult<()> {
+        state.insert(Iterations(self.0));
+        Ok(())
+    }
+}
+/// Placed directly behind every cooling component: records the value it left in its cell.
+#[derive(Clone, Serialize)]
+struct Snap {
+    id: u64,
+    cell: u64,
+    #[serde(skip)]
+    log: Arc<Mutex<Vec<String>>>,
+}
+impl Component<P> for Snap {
+    fn execute(&self, _: &P, state: &mut State<P>) -> ExecResult<()> {
+        let v = cell_value(state, self.cell);
+        self.log.lock().unwrap().push(list([self.id.to_string(), self.cell.to_string(), opt_f(v)]));
+        Ok(())
+    }
+}
+
+/// Builds the REAL components: `GeometricCooling` (one instance per `cool` node, lens chosen by the
+/// cell), `Block`, `Loop` + `LessThanN::iterations`, `Scope`. `Err(())` = a constructor refused.
+fn build_prog(sx: &Sx, log: &Arc<Mutex<Vec<String>>>) -> Result<Vec<Box<dyn Component<P>>>, ()> {
+    let (kind, args) = sx.head().unwrap();
+    let seq = |items: &[Sx]| -> Result<Vec<Box<dyn Component<P>>>, ()> {
+        let mut v = vec![];
+        for i in items { v.extend(build_prog(i, log)?); }
+        Ok(v)
+    };
+    Ok(match kind {
+        "cool" => {
+            let (id, cell, alpha) = (args[0].nat().unwrap(), args[1].nat().unwrap(), args[2].float().unwrap());
+            let c = match cell {
+                0 => GeometricCooling::new::<P>(alpha, ValueOf::<Temperature>::new()),
+                1 => GeometricCooling::new::<P>(alpha, ValueOf::<CellB>::new()),
+                2 => GeometricCooling::new::<P>(alpha, ValueOf::<CellC>::new()),
+                _ => panic!("cell {cell}"),
+            }.map_err(|_| ())?;
+            vec![c, Box::new(Snap { id, cell, log: log.clone() })]
+        }
+        "seti" => vec![Box::new(SetIter(args[0].nat().unwrap() as u32))],
+        "skip" => vec![],
+        "seq" => seq(args)?,
+        "loop" => vec![Loop::new(LessThanN::iterations(args[0].nat().unwrap() as u32), Block::new(build_prog(&args[1], log)?))],
+        "scope" => vec![Scope::new(seq(args)?)],
+        _ => panic!("unknown program node {kind}"),
+    })
+}
+
+/// `(coolprog (iters none|v) (cells none|x ...) (prog P))` →
+/// `(ok|err|panic (iters none|v) (cells ...) (trace (id cell x)*))` or `(e ctor)`.
+/// The root is executed WITHOUT `init` on the prepared state (a `Scope` initialises its body itself).
+fn run_coolprog(args: &[Sx]) -> String {
+    let iters = &field(args, "iters")[0];
+    let cells: Vec<Option<f64>> = field(args, "cells").iter().map(|c| if c.atom() == Some("none") { None } else { Some(c.float().unwrap()) }).collect();
+    let log = Arc::new(Mutex::new(vec![]));
+    let root = match build_prog(&field(args, "prog")[0], &log) {
+        Ok(v) => Block::new(v),
+        Err(()) => return "(e ctor)".into(),
+    };
+    let mut state: State<P> = State::new();
+    state.insert(Populations::<P>::new());
+    state.insert(Random::new(0));
+    for (k, c) in cells.iter().enumerate() {
+        if let Some(v) = *c {
+            match k { 0 => { state.insert(Temperature(v)); } 1 => { state.insert(CellB(v)); } 2 => { state.insert(CellC(v)); } _ => panic!("cell {k}") }
+        }
+    }
+    if iters.atom() != Some("none") { state.insert(Iterations(iters.nat().unwrap() as u32)); }
+    let r = catch(|| root.execute(&TagProblem, &mut state));
+    let status = match r { Some(Ok(())) => "ok", Some(Err(_)) => "err", None => "panic" };
+    let it = catch(|| state.try_get_value::<Iterations>().ok()).flatten();
+    let after: Vec<String> = (0..cells.len() as u64).map(|k| opt_f(catch(|| cell_value(&state, k)).flatten())).collect();
+    let trace = log.lock().unwrap().clone();
+    list([status.to_string(), tagged("iters", [it.map(|v| v.to_string()).unwrap_or("none".into())]), tagged("cells", after), tagged("trace", trace)])
+}
+
+/// Generator of `coolprog` programs: labels are assigned in preorder while printing.
+struct PG { next: u64 }
+impl PG {
+    fn cool(&mut self, cell: u64, alpha: f64) -> String {
+        let id = self.next;
+        self.next += 1;
+        format!("(cool {} {} {})", id, cell, fx(alpha))
+    }
+    fn cools(&mut self, spec: &[(u64, f64)]) -> Vec<String> {
+        spec.iter().map(|&(c, a)| self.cool(c, a)).collect()
+    }
+    fn random(&mut self, rng: &mut Sm, depth: u32, in_loop: bool, ncells: u64) -> String {
+        let alphas = [0.5, 0.9, 0.25, 0.99, 0.0, 0.75];
+        let pick = if depth == 0 { rng.range(0, 2) } else { rng.range(0, 8) };
+        match pick {
+            0 | 1 | 2 => { let c = rng.range(0, ncells - 1); let a = alphas[rng.range(0, alphas.len() as u64 - 1) as usize]; self.cool(c, a) }
+            3 if !in_loop => format!("(seti {})", rng.range(0, 4)),
+            3 | 4 => { let k = rng.range(1, 3); let items: Vec<String> = (0..k).map(|_| self.random(rng, depth - 1, in_loop, ncells)).collect(); format!("(seq {})", items.join(" ")) }
+            5 | 6 => { let n = rng.range(0, 4); let b = self.random(rng, depth - 1, true, ncells); format!("(loop {} {})", n, b) }
+            _ => { let k = rng.range(1, 3); let items: Vec<String> = (0..k).map(|_| self.random(rng, depth - 1, in_loop, ncells)).collect(); format!("(scope {})", items.join(" ")) }
+        }
+    }
+}
+fn coolprog_input(iters: Option<u64>, cells: &[Option<f64>], prog: &str) -> String {
+    format!("(coolprog (iters {}) {} (prog {}))", iters.map(|v| v.to_string()).unwrap_or("none".into()),
+        tagged("cells", cells.iter().map(|c| opt_f(*c))), prog)
+}
+fn gen_coolprogs(rng: &mut Sm, thorough: bool) -> Vec<(&'static str, String)> {
+    let mut out: Vec<(&'static str, String)> = vec![];
+    let its: [Option<u64>; 4] = [None, Some(0), Some(3), Some(7)];
+    let temps = [1.0, 100.0, 1e-3, 1e12, 5e-324, 1e-310, 2.2250738585072014e-308, 1.7e308, f64::INFINITY, 0.0, -3.0];
+    // A. k manual executions in a row on a state with / without an (unchanged) Iterations counter
+    for &it in &its {
+        for &t in &temps {
+            for k in [1usize, 2, 3, 5] {
+                for &a in &[0.5, 0.9, 0.999999] {
+                    if !thorough && (k == 5 || a == 0.999999) && rng.chance(1, 2) { continue; }
+                    let mut g = PG { next: 0 };
+                    let body = g.cools(&vec![(0, a); k]).join(" ");
+                    out.push(("cool-prog-repeat", coolprog_input(it, &[Some(t)], &format!("(seq {})", body))));
+                }
+            }
+        }
+    }
+    // A'. one component instance executed k times = (loop k) is covered below; same alpha 0 (legal) twice
+    out.push(("cool-prog-repeat", coolprog_input(Some(2), &[Some(4.0)], "(seq (cool 0 0 x0000000000000000) (cool 1 0 x3fe0000000000000))")));
+    // B. the counter is re-inserted between executions (same value again, another value)
+    for &it in &its {
+        for v in [0u64, 3, 9] {
+            let mut g = PG { next: 0 };
+            let c = g.cools(&[(0, 0.5), (0, 0.5), (0, 0.25), (0, 0.5), (0, 0.9)]);
+            out.push(("cool-prog-seti", coolprog_input(it, &[Some(64.0)],
+                &format!("(seq {} {} (seti {}) {} {} (seti {}) {})", c[0], c[1], v, c[2], c[3], v, c[4]))));
+        }
+    }
+    // C/D. loops whose body holds several cooling components (same lens / two lenses / three lenses)
+    let bodies: [&[(u64, f64)]; 6] = [&[(0, 0.5)], &[(0, 0.5), (0, 0.5)], &[(0, 0.9), (0, 0.5), (0, 0.25)], &[(0, 0.5), (1, 0.25)],
+        &[(0, 0.5), (1, 0.25), (0, 0.9), (2, 0.5), (1, 0.5)], &[(1, 0.5), (1, 0.5)]];
+    for &it in &[Some(0u64), Some(2), Some(5)] {
+        for n in [0u64, 1, 3, 6] {
+            for b in &bodies {
+                let mut g = PG { next: 0 };
+                let body = g.cools(b).join(" ");
+                out.push(("cool-prog-loop", coolprog_input(it, &[Some(64.0), Some(3.0), Some(1e-3)], &format!("(loop {} (seq {}))", n, body))));
+            }
+        }
+    }
+    // H. a loop run again while the counter stands where the previous run stopped; continued; reset by hand
+    for (a, b, mid) in [(3u64, 3u64, ""), (2, 4, ""), (3, 3, "(seti 0)"), (3, 5, "(seti 3)")] {
+        let mut g = PG { next: 0 };
+        let b1 = g.cools(&[(0, 0.5), (0, 0.5)]).join(" ");
+        let one = g.cool(0, 0.9);
+        let b2 = g.cools(&[(0, 0.5), (1, 0.5)]).join(" ");
+        out.push(("cool-prog-loop", coolprog_input(Some(0), &[Some(1e6), Some(8.0)],
+            &format!("(seq (loop {} (seq {})) {} {} (loop {} (seq {})))", a, b1, one, mid, b, b2))));
+    }
+    // E. scoped nested loops (every Scope gives its Loop a counter of its own), depth 3; unscoped nested loops share one
+    {
+        let mut g = PG { next: 0 };
+        let (c0, c1, c2, c3, c4) = (g.cool(0, 0.5), g.cool(0, 0.9), g.cool(1, 0.5), g.cool(0, 0.5), g.cool(0, 0.99));
+        for &it in &[None, Some(0u64), Some(1)] {
+            out.push(("cool-prog-nested", coolprog_input(it, &[Some(1e9), Some(7.0)],
+                &format!("(scope (loop 2 (seq {c0} (scope (loop 3 (seq {c1} {c2} (scope (loop 2 (seq {c3} {c3b})))))) {c4})))", c3b = c3.replace("(cool 3 ", "(cool 5 ")))));
+            out.push(("cool-prog-nested", coolprog_input(it, &[Some(1e9), Some(7.0)],
+                &format!("(seq {c0} (scope {c1} (scope {c3} (loop 2 {c4})) {c2}) {c0b})", c0b = c0.replace("(cool 0 ", "(cool 6 ")))));
+        }
+        out.push(("cool-prog-nested", coolprog_input(Some(0), &[Some(1e9), Some(7.0)], &format!("(loop 3 (seq {c0} (loop 2 (seq {c1} {c3}))))"))));
+        out.push(("cool-prog-nested", coolprog_input(Some(0), &[Some(1e9), Some(7.0)], &format!("(loop 2 (seq {c0} (scope {c1} {c3}) (scope (loop 2 {c4}))))"))));
+    }
+    // F/G. error paths: lens target absent (first / later execution, inside a loop, inside a scope); loop without a counter
+    for (it, cells, prog) in [
+        (Some(0u64), vec![None, Some(1.0)], "(seq (cool 0 0 x3fe0000000000000))".to_string()),
+        (Some(0), vec![Some(8.0), None], "(seq (cool 0 0 x3fe0000000000000) (cool 1 1 x3fe0000000000000) (cool 2 0 x3fe0000000000000))".to_string()),
+        (Some(0), vec![Some(8.0), None], "(loop 3 (seq (cool 0 0 x3fe0000000000000) (cool 1 1 x3fe0000000000000)))".to_string()),
+        (Some(1), vec![Some(8.0), None], "(seq (scope (loop 2 (seq (cool 0 0 x3fe0000000000000) (scope (cool 1 1 x3fe0000000000000))))) (cool 2 0 x3fe0000000000000))".to_string()),
+        (None, vec![Some(8.0)], "(seq (cool 0 0 x3fe0000000000000) (loop 2 (cool 1 0 x3fe0000000000000)))".to_string()),
+        (None, vec![Some(8.0)], "(seq (cool 0 0 x3fe0000000000000) (cool 1 0 x3ff8000000000000))".to_string()),
+    ] {
+        out.push(("cool-prog-err", coolprog_input(it, &cells, &prog)));
+    }
+    // I. random programs
+    for _ in 0..(if thorough { 3000 } else { 250 }) {
+        let mut g = PG { next: 0 };
+        let ncells = rng.range(1, 3);
+        let k = rng.range(1, 3);
+        let depth = rng.range(1, 4) as u32;
+        let items: Vec<String> = (0..k).map(|_| g.random(rng, depth, false, ncells)).collect();
+        let cells: Vec<Option<f64>> = (0..ncells).map(|_| if rng.chance(1, 12) { None } else { Some(10f64.powf(rng.unit() * 24.0 - 12.0)) }).collect();
+        let it = if rng.chance(1, 3) { None } else { Some(rng.range(0, 4)) };
+        out.push(("cool-prog-random", coolprog_input(it, &cells, &format!("(seq {})", items.join(" ")))));
+    }
+    out
+}
+
 struct SaVisitor {
     steps: Vec<String>,
     pending: Option<(f64, f64, String, String, f64, usize)>,
     cool_before: Option<f64>,
     /// every acceptance of the run as a prepared `accept` case (input, observed output)
-    accept_cases: Vec<(String, String)>,
+    accept_cases: Vec<(bool, String, String)>,
     swapped: bool,
     fb: u64,
     script: Option<std::sync::Arc<Script>>,
@@ -194,7 +423,7 @@ impl Visitor for SaVisitor {
                             let input = accept_input(t, 0, &words, &stack_in);
                             let surv = match who { "cand" | "both" => format!("((2 {}))", fx(cand)), "cur" => format!("((1 {}))", fx(cur)), _ => "(lost)".into() };
                             let output = format!("(ok (stack {}{}{}) (t {}) (used {}))", surv, if below.is_empty() { "" } else { " " }, below, fx(t), nused);
-                            self.accept_cases.push((input, output));
+                            self.accept_cases.push((cand <= cur, input, output));
                         }
                     }
                 }
@@ -222,7 +451,7 @@ const SA_T0: [f64; 3] = [1.0, 100.0, 1e-3];
 const SA_ALPHA: [f64; 3] = [0.9, 0.99, 0.5];
 
 /// `(run (tmpl name) (v k) (i k) (iters n) (seed s) (t0 x) (alpha x))`
-fn run_run(args: &[Sx]) -> (String, Vec<(String, String)>) {
+fn run_run(args: &[Sx]) -> (String, Vec<(bool, String, String)>) {
     let name = field(args, "tmpl")[0].atom().unwrap().to_string();
     let v = field(args, "v")[0].nat().unwrap() as u32;
     let i = field(args, "i")[0].nat().unwrap() as u32;
@@ -240,6 +469,7 @@ fn run_case(input: &Sx) -> String {
         "accept" => run_accept(args),
         "freq" => run_freq(args),
         "cool" => run_cool(args),
+        "coolprog" => run_coolprog(args),
         "run" => run_run(args).0,
         _ => panic!("unknown case kind {kind}"),
     }
@@ -282,6 +512,8 @@ fn main() {
             let cand = base + d;
             let mut ts = temps.clone();
             if d > 0.0 { for r in [0.25, 0.5, 1.0, 2.0, 5.0, 20.0] { ts.push((cand - cur) * r); } }
+            // p at the very bottom of the double range: 1e-304, 4e-322, 5e-324 (smallest positive), 0 — the draw u = 0 tells 0 < p from p = 0
+            if d > 0.0 { for q in [700.0, 740.0, 745.0, 746.0] { ts.push((cand - cur) / q); } }
             for &t in &ts {
                 if !(t > 0.0) { continue; }
                 if !a.thorough && bi >= 2 && rng.chance(1, 2) { continue; }
@@ -345,7 +577,8 @@ fn main() {
                 if d > 0.0 { for r in [0.25, 0.5, 1.0, 2.0, 5.0, 20.0] { ts.push((cand - cur) * r); } }
                 for &t in &ts {
                     let site = if cand < cur { "freq-better" } else if cand == cur { "freq-equal" } else { "freq-worse" };
-                    emit(site, format!("(freq (kind {}) (cur {}) (cand {}) (t {}) (n {}) (seed {}))", kind, fx(cur), fx(cand), fx(t), n, rng.next() % 1_000_000));
+                    let it = if rng.chance(1, 2) { format!(" (it {})", rng.range(0, 5)) } else { String::new() };
+                    emit(site, format!("(freq (kind {}) (cur {}) (cand {}) (t {}) (n {}) (seed {}){})", kind, fx(cur), fx(cand), fx(t), n, rng.next() % 1_000_000, it));
                 }
             }
         }
@@ -363,6 +596,10 @@ fn main() {
         let alpha = rng.unit();
         emit("cool", format!("(cool (t {}) (alpha {}) (n {}))", fx(t), fx(alpha), rng.range(1, 30)));
     }
+    // 4b. cooling components inside programs (several executions per Iterations value, loops, scopes, lenses)
+    for (site, input) in gen_coolprogs(&mut rng, a.thorough) {
+        emit(site, input);
+    }
     // 5. template runs; every acceptance of a run is re-emitted as a prepared case with the exact word it consumed
     drop(emit);
     let seeds = if a.thorough { 6 } else { 2 };
@@ -377,8 +614,8 @@ fn main() {
                     let (_, args) = sx.head().unwrap();
                     let (output, cases) = run_run(args);
                     out.case("run", &input, &output);
-                    for (ci, co) in cases {
-                        let site = if ci.contains("(words 0)") && co.ends_with("(used 0))") { "run-accept-better" } else { "run-accept" };
+                    for (not_worse, ci, co) in cases {
+                        let site = if not_worse { "run-accept-better" } else { "run-accept" };
                         out.case(site, &ci, &co);
                     }
                 }
